@@ -186,7 +186,7 @@ func c19Quota(c *proxyv1alpha1.RateLimitCondition) int32 {
 // Every Save acknowledged before the crash is in the new store with the acknowledged content (unless a later
 // acknowledged Delete removed it); every acknowledged Delete stays deleted; conditions of another shard are refused
 // before any API call and never loaded.
-// verif:bounds k = 1..2 (quick) / 3 (thorough) operations from {Save(quota q), Delete, DeleteUpstream} on one condition of shard 0, symbolic quotas; an object of shard 1 pre-exists in the API; faults: transient error on create/update/delete, conflict on update, at every call; crash index 0..6
+// verif:bounds k = 1..2 (quick) / 3 (thorough) operations from {Save(fresh object, quota q), Get + change in place + Save(same object), Delete, DeleteUpstream} on one condition of shard 0, symbolic quotas; an object of shard 1 pre-exists in the API; faults: transient error on create/update/delete, conflict on update, at every call; crash index 0..6
 func HarnessC19WriteThrough() {
 	api := &c19API{objects: map[string]*proxyv1alpha1.RateLimitCondition{}, faultsOK: true}
 	foreign := c19Cond(1, 77)
@@ -221,7 +221,21 @@ func HarnessC19WriteThrough() {
 		}()
 		k := nondetRange("ops", 1, vbound(2, 3))
 		for i := 0; i < k; i++ {
-			switch nondetRange("op", 0, 3, i) {
+			switch nondetRange("op", 0, 4, i) {
+			case 4:
+				// the way the limiter itself updates a condition: Get hands out the stored object, the caller changes
+				// it in place and saves that same object (updateUpstreamStateCondition, calculateUpstreamCondition)
+				cur, gerr := s.Get("up-a", name)
+				if gerr != nil || cur == nil || len(cur.Spec.LimitItemConfigurations) != 1 || cur.Spec.LimitItemConfigurations[0].MaxRequestsInflight == nil {
+					break
+				}
+				q := nondetInt32("quota", i)
+				vassume(q >= 0)
+				cur.Spec.LimitItemConfigurations[0].MaxRequestsInflight.Max = q
+				expect = 0
+				if err := s.Save("up-a", cur); err == nil {
+					expect, ackQuota = 1, q
+				}
 			case 0:
 				q := nondetInt32("quota", i)
 				vassume(q >= 0)
